@@ -174,17 +174,20 @@ class SimFS:
         if kind == "crash_after":
             return "crash_after"
         if opname in FAULT_OPS:
+            # errors of operations on an OPEN file (write, flush, fsync, close) carry no file name - only the ones that take a
+            # path (open, rename, remove) do; code that formats exc.filename must cope with None
+            named = (path,) if opname in ("open", "rename", "remove") else ()
             if kind == "EIO":
-                raise OSError(errno.EIO, "Input/output error (simulated)", path)
+                raise OSError(errno.EIO, "Input/output error (simulated)", *named)
             if kind == "EACCES":
-                raise PermissionError(errno.EACCES, "Permission denied (simulated)", path)
+                raise PermissionError(errno.EACCES, "Permission denied (simulated)", *named)
             if kind == "ETIMEDOUT":
                 # what a network file system reports when the server does not answer (an OSError that IS a TimeoutError)
-                raise TimeoutError(errno.ETIMEDOUT, "Connection timed out (simulated)", path)
+                raise TimeoutError(errno.ETIMEDOUT, "Connection timed out (simulated)", *named)
             if kind == "ENOSPC":
                 if opname in ("write", "flush", "close"):
                     return "ENOSPC"
-                raise OSError(errno.ENOSPC, "No space left on device (simulated)", path)
+                raise OSError(errno.ENOSPC, "No space left on device (simulated)", *named)
             if kind == "NOMEM":
                 # a failing allocation (the buffered writer cannot get its buffer, the serialiser cannot grow its frame): what the
                 # saving code sees is a MemoryError - not an OSError - out of the file operation it was in
@@ -478,7 +481,7 @@ class SimWriteFile:
             keep = len(data) // 2
             self._put(data[:keep])
             del self.buf[:keep]
-            raise OSError(errno.ENOSPC, "No space left on device (simulated)", self.path)
+            raise OSError(errno.ENOSPC, "No space left on device (simulated)")
         self._put(data)
         del self.buf[:]
         self.fs._after(post, opname)
